@@ -1224,11 +1224,11 @@ enum cc_stat cc_slist_iter_add(CC_SListIter *iter, void *element)
         return CC_ERR_ALLOC;
 
     new_node->data = element;
-    new_node->next = iter->next;
+    new_node->next = iter->current->next;
 
     iter->current->next = new_node;
 
-    if (iter->index == iter->list->size)
+    if (!new_node->next)
         iter->list->tail = new_node;
 
     iter->index++;
@@ -1408,16 +1408,16 @@ enum cc_stat cc_slist_zip_iter_add(CC_SListZipIter *iter, void *e1, void *e2)
     new_node1->data = e1;
     new_node2->data = e2;
 
-    new_node1->next = iter->l1_next;
-    new_node2->next = iter->l2_next;
+    new_node1->next = iter->l1_current->next;
+    new_node2->next = iter->l2_current->next;
 
     iter->l1_current->next = new_node1;
     iter->l2_current->next = new_node2;
 
-    if (iter->index == iter->l1->size)
+    if (!new_node1->next)
         iter->l1->tail = new_node1;
 
-    if (iter->index == iter->l2->size)
+    if (!new_node2->next)
         iter->l2->tail = new_node2;
 
     iter->index++;
